@@ -155,6 +155,12 @@ def busCmd0 (st : BusState) (toks : List String) : BusState × String :=
       match p' with
       | some p' => ({ st with bus := { st.bus with policy := p' } }, "ok")
       | none => (st, "bad-op")
+  | ["stall", c, on] =>
+    match c.toNat? with
+    | some c =>
+      let t := step driverTable st.bus (.stall c (on = "1"))
+      ({ st with bus := t.bus }, showTx t)
+    | none => (st, "bad-op")
   | ["timeout"] =>
     let t := step driverTable st.bus .timeout
     ({ st with bus := t.bus }, showTx t)
